@@ -67,6 +67,8 @@ type Query { a: Int }`, `type Query { a: Int } """`, `type Query { "" a: Int }`,
 	`directive @a(x: Int @b) on ARGUMENT_DEFINITION | INPUT_FIELD_DEFINITION directive @b(y: Int @c) on ARGUMENT_DEFINITION | INPUT_FIELD_DEFINITION directive @c(z: Int @b) on ARGUMENT_DEFINITION | INPUT_FIELD_DEFINITION type Query { a: Int }`,
 	`directive @c(z: Int @b) on INPUT_FIELD_DEFINITION directive @b(y: Int @c) on INPUT_FIELD_DEFINITION directive @a(x: Int @b, y: Int @c, z: Int @b) on INPUT_FIELD_DEFINITION type Query { a: Int }`,
 	`directive @a(x: Int @b, y: Int @b) on INPUT_FIELD_DEFINITION directive @b on INPUT_FIELD_DEFINITION | ARGUMENT_DEFINITION type Query { a: Int }`,
+	`input A { a: A = {} b: Int } type Query { f(x: A): Int }`, `input A { a: [A] = [{}] } type Query { f(x: A): Int g(x: [A!] = [{}]): Int }`,
+	`input A { b: B = {} } input B { a: A = {} } type Query { f(x: A!, y: B): Int }`, `input A { a: A } type Query { f(x: A = {a: {a: {}}}): Int }`,
 	`type Mutation { a: Int }`, `type Subscription { a: Int }`, `enum Query { A }`, `input Query { a: Int }`, `scalar Query`, `interface Query { a: Int }`, `union Query = Query`,
 	"type Query { a: Int }" + "\n##next-load##\n" + "type Query { b: Int }",
 	"type Query { a: Int }" + "\n##next-load##\n" + "extend type Query { a: Int }" + "\n##next-load##\n" + "extend type Query { b: Int }",
@@ -79,6 +81,9 @@ type Query { a: Int }`, `type Query { a: Int } """`, `type Query { "" a: Int }`,
 }
 
 var adversarial = []string{
+	`{hidden}`, `{private}`, `{obj{hidden private}}`, `{a: hidden b: private objs{hidden}}`,
+	`{ items: strs items: objs { str } }`, `{ x: objs { str } x: anys { __typename } }`, `{ x: strs x: anys { __typename } }`, `{obj{ l: strs l: objs {num} l: anys {__typename}}}`,
+	`{inp(in: {zzz: ["x"]})}`, `{inp(in: {zzz: [[1], {a: [2]}]})}`, `{inp(in: {c: {zzz: [1, 2]}})}`, `{inp(in: {b: [["x"]], zzz: {y: [1]}})}`,
 	`{...F} fragment F on Query {...F}`,
 	`{...F} fragment F on Query {obj{...G}} fragment G on Query {obj{...F}}`,
 	`{obj{...F}} fragment F on Query {objs{...F}}`,
